@@ -2,8 +2,8 @@ CONSTANTS
   H = 4
   NWit = 2
   MaxCalls = 3
-  PrimaryPersonas = {"honest", "lunatic", "equiv", "silent", "notfound", "bad", "flip2", "nopivot", "badpivot", "thin3", "weak3", "bound3", "future3", "past3", "malformed3", "badsig3", "lunatic3", "weak4bad", "weak4hole", "fwd_m1", "fwd_0", "fwd_p1", "dup3", "dup4"}
-  WitnessPersonas = {"honest", "lunatic", "equiv", "silent", "notfound", "bad", "lag2", "lagcatch", "lagfuture", "flip2", "thin3", "weak3", "bound3", "future3", "malformed3", "lunatic3", "relay3", "relay4", "fwd_0", "lag3", "lag3adv", "lag23", "dup3", "dup4"}
+  PrimaryPersonas = {"honest", "lunatic", "equiv", "silent", "notfound", "bad", "flip2", "nopivot", "badpivot", "thin3", "weak3", "bound3", "future3", "past3", "malformed3", "badsig3", "lunatic3", "weak4bad", "weak4hole", "fwd_m1", "fwd_0", "fwd_p1"}
+  WitnessPersonas = {"honest", "lunatic", "equiv", "silent", "notfound", "bad", "lag2", "lagcatch", "lagfuture", "flip2", "thin3", "weak3", "bound3", "future3", "malformed3", "lunatic3", "relay3", "relay4", "fwd_0", "lag3", "lag3adv", "lag23"}
   Modes = {"skip", "seq"}
   Roots = {1, 3}
   WithUpdate = TRUE
